@@ -10,11 +10,15 @@
 (* leaf is a precertificate issued directly or through a precertificate    *)
 (* signing certificate, which key type it carries, whether it has an       *)
 (* oddity the lax parser reports as non-fatal, and where the log keeps     *)
-(* issuance chains.  For each shape the module says                        *)
+(* issuance chains, and in which form the value-dependent fields of its    *)
+(* TBSCertificate are written (validity on both sides of 1950 / 2000 /     *)
+(* 2050 and in 9999, serial numbers around the sign octet, an extension    *)
+(* identifier with large arcs).  For each shape the module says            *)
 (*   - the validated paths the log may store (ChainAdmission!Paths),       *)
 (*   - the entry type,                                                     *)
 (*   - which certificate's key the issuer_key_hash of a precert entry      *)
 (*     names and whose name / authority key id the logged TBS carries.     *)
+(*   - how validity and serial number stand in the logged entry.           *)
 (* TLC checks the laws below on every shape and exports every shape; the   *)
 (* harness builds each one with real keys, submits it to a real instance,  *)
 (* sequences, reads it back over get-entries and get-entry-and-proof and   *)
@@ -63,8 +67,40 @@ IsCertificate(wire) == wire \in {"exact", "laxSerial"}
 \* through the submitted bytes; the harness derives it independently).
 Orders == {"std", "poisonBeforeAki", "poisonFirst"}
 
+(* ---------- fields of the TBSCertificate as the CA wrote them ---------- *)
+\* An X.509 entry is the submitted certificate; a precert entry is its TBSCertificate with the poison gone (and issuer /
+\* authority key identifier replaced behind a precertificate signing certificate).  Whoever derives the entry by taking
+\* the TBSCertificate apart and writing it again must write every other field exactly as the CA did; the fields whose
+\* DER form depends on their VALUE are the dimension here.
+\*
+\* Validity (RFC 5280 4.1.2.5): "CAs conforming to this profile MUST always encode certificate validity dates through
+\* the year 2049 as UTCTime; certificate validity dates in 2050 or later MUST be encoded as GeneralizedTime."  UTCTime
+\* has two year digits read as 19YY for YY >= 50, so nothing before 1950 can be written with it either.  The years on
+\* both sides of every change of form (1950, 2000 - where the two digits wrap -, 2050) and the last year there is, each
+\* at its first, a middle and its last second.  (Years, Edges, Written: as spec/codec/EntryOfChain.tla, which has this
+\* dimension for the library's entry functions (C04); here it reaches add-chain / add-pre-chain of a real instance.)
+Years == {1949, 1950, 1999, 2000, 2049, 2050, 2051, 9999}
+Edges == {"first", "mid", "last"}      \* 1 January 00:00:00, 1 June 12:00:00, 31 December 23:59:59, all UTC
+TimeForms == [y : Years, edge : Edges]
+InUTCRange(y) == 1950 <= y /\ y < 2050
+\* how a conforming CA writes the time, and therefore how it stands in the submission AND in the logged entry
+Written(tf) == [tag |-> IF InUTCRange(tf.y) THEN "UTCTime" ELSE "GeneralizedTime",
+                yd |-> IF InUTCRange(tf.y) THEN 2 ELSE 4, y |-> tf.y, edge |-> tf.edge]
+EdgeRank == [first |-> 0, mid |-> 1, last |-> 2]
+NotAfterOK(nb, na) == nb.y < na.y \/ (nb.y = na.y /\ EdgeRank[nb.edge] <= EdgeRank[na.edge])
+\* the validity every other shape carries (harness/pki defaults)
+StdValidity == [nb |-> [y |-> 2020, edge |-> "first"], na |-> [y |-> 2040, edge |-> "first"]]
+OddValidities == {v \in [nb : TimeForms, na : TimeForms] : NotAfterOK(v.nb, v.na)}
+\* Other value-dependent encodings of the TBSCertificate:
+\*   serial number, an INTEGER in the fewest octets, with a leading zero octet exactly when the top bit of the first
+\*   value octet is set (RFC 5280 4.1.2.2: positive, at most 20 octets): 1, 127, 128, 2^159 - 1;
+\*   an extension whose identifier has arcs that need several base-128 octets (2.999.2147483647.1).
+TbsForms == {"std", "serialOne", "serial7f", "serial80", "serialMax20", "bigOidExt"}
+\* content octets of the serial number INTEGER in the submission and in the logged entry (0: not singled out)
+SerialLen(f) == CASE f = "serialOne" -> 1 [] f = "serial7f" -> 1 [] f = "serial80" -> 2 [] f = "serialMax20" -> 20 [] OTHER -> 0
+
 PreIssuers == {"viaP", "viaPf", "viaPm"}
-Shapes == {s \in [kind : Kinds, iss : Issuances, tail : Tails, key : Keys, quirk : Quirks, storage : Storages, trust : DOMAIN Trusts, wire : Wires, order : Orders] :
+Shapes0 == {s \in [kind : Kinds, iss : Issuances, tail : Tails, key : Keys, quirk : Quirks, storage : Storages, trust : DOMAIN Trusts, wire : Wires, order : Orders] :
              /\ (s.order # "std" => /\ s.kind = "precert" /\ s.iss \in {"underI1", "viaP", "viaPf"} /\ s.tail \in {"noroot", "root"}
                                      /\ s.quirk = "none" /\ s.key = "p256" /\ s.trust = "T1" /\ s.wire = "exact")
              /\ (s.iss \in PreIssuers => s.kind = "precert")
@@ -72,6 +108,18 @@ Shapes == {s \in [kind : Kinds, iss : Issuances, tail : Tails, key : Keys, quirk
              \* the wire oddities are independent of the other dimensions: one representative combination each
              /\ (s.wire # "exact" => /\ s.iss \in {"underI1", "viaP"} /\ s.tail = "noroot" /\ s.quirk = "none"
                                      /\ s.key = "p256" /\ s.trust = "T1")}
+With(s, v, f) == [kind |-> s.kind, iss |-> s.iss, tail |-> s.tail, key |-> s.key, quirk |-> s.quirk, storage |-> s.storage,
+                  trust |-> s.trust, wire |-> s.wire, order |-> s.order, valid |-> v, tbs |-> f]
+\* the field forms are independent of the other dimensions: they ride on one plain representative of each way an entry
+\* is derived (an X.509 entry; a precert entry issued directly; one behind a precertificate signing certificate with
+\* either form of authority key identifier)
+FieldReps == {s \in Shapes0 : /\ s.tail = "noroot" /\ s.key = "p256" /\ s.quirk = "none" /\ s.storage = "direct" /\ s.trust = "T1"
+                              /\ s.wire = "exact" /\ s.order = "std"
+                              /\ \/ (s.kind = "x509" /\ s.iss = "underI1")
+                                 \/ (s.kind = "precert" /\ s.iss \in {"underI1", "viaP", "viaPf"})}
+Shapes == {With(s, StdValidity, "std") : s \in Shapes0}
+          \cup {With(s, v, "std") : s \in FieldReps, v \in OddValidities}
+          \cup {With(s, StdValidity, f) : s \in FieldReps, f \in TbsForms \ {"std"}}
 
 LeafOf(s) == [Leaf("L", Issuance[s.iss][1].subj, Issuance[s.iss][1].key, IF s.kind = "precert" THEN "ok" ELSE "none")
                 EXCEPT !.parses = IsCertificate(s.wire)]
@@ -110,10 +158,26 @@ Determined(s) == Admit1(s) => Stored(s) = {StoredPathOf(s)}
 FinalIssuerOK(s) == s.kind = "precert" =>
   LET c == StoredPathOf(s)[FinalIssuerPos(s)] IN c.isCA /\ "ct" \notin c.ekus
 
+\* NAMED LAW FieldsVerbatim (C01: "the RFC 6962 entry an independent client derives from the submitted chain"; 3.2: "the
+\* TBSCertificate component of the Precertificate - that is, without the signature and the poison extension").  The
+\* logged entry carries validity and serial number in the form the CA wrote: UTCTime exactly for 1950 .. 2049, four
+\* year digits otherwise, the serial number in as many octets as the submission has.
+LoggedValidity(s) == <<Written(s.valid.nb), Written(s.valid.na)>>
+FieldsVerbatim(s) ==
+  \A i \in 1..2 : LET w == LoggedValidity(s)[i] IN
+     /\ (w.tag = "UTCTime" <=> (w.y >= 1950 /\ w.y <= 2049)) /\ (w.tag = "GeneralizedTime" <=> w.yd = 4)
+     /\ (w.y = 2050 => w.tag = "GeneralizedTime") /\ (w.y = 2049 => w.tag = "UTCTime")
+     /\ (w.y = 1949 => w.tag = "GeneralizedTime") /\ (w.y = 1950 => w.tag = "UTCTime")
+\* the field forms change neither admission nor the stored path nor the issuer a precert entry names
+FieldsDoNotMatter(s) ==
+  LET b == With(s, StdValidity, "std") IN
+    Admit1(s) = Admit1(b) /\ StoredPathOf(s) = StoredPathOf(b) /\ FinalIssuerPos(s) = FinalIssuerPos(b)
+
 Ids(p) == [i \in 1..Len(p) |-> p[i].id]
 Case(s) == [shape |-> s, admit |-> Admit1(s), submitted |-> Ids(Submitted(s)), path |-> Ids(StoredPathOf(s)),
             trusted |-> {c.id : c \in Trusted(s)},
             entryType |-> IF s.kind = "precert" THEN "precert_entry" ELSE "x509_entry",
             finalIssuer |-> IF s.kind = "precert" THEN StoredPathOf(s)[FinalIssuerPos(s)].id ELSE "",
-            viaPreIssuer |-> ViaPreIssuer(s)]
+            viaPreIssuer |-> ViaPreIssuer(s),
+            validity |-> LoggedValidity(s), serialLen |-> SerialLen(s.tbs)]
 =============================================================================
